@@ -31,7 +31,9 @@ def gen_class(rng):
     base = mk(names[:nb], True)
     own = mk(names[nb:nb + n], not any(f["kind"] != "required" for f in base))
     return dict(base=base, own=own, base_decorated=rng.random() < 0.5 if base else False,
-                post_init_writes=rng.choice([None, None, "first"]))
+                post_init_writes=rng.choice([None, None, "first"]),
+                # an undecorated subclass overriding __init__: x is assigned before delegating to the tracked __init__, y after
+                sub=rng.random() < 0.3)
 
 
 def class_src(c):
@@ -68,6 +70,10 @@ def class_src(c):
             L.append(f"        self.{tgt[0]} = 42")
         else:
             L.append("        pass")
+    if c.get("sub"):
+        L += ["", "@dataclass(init=False)", "class S(A):", "    x: int = -1", "    y: int = -1",
+              "    def __init__(self, *args, x: int = -1, y: int = -1, **kwargs):",
+              "        self.x = x", "        super().__init__(*args, **kwargs)", "        self.y = y"]
     return "\n".join(L) + "\n"
 
 
@@ -83,8 +89,8 @@ def cls_coq(c):
 
 def gen_ops(rng, c, params, length):
     allf = c["base"] + c["own"]
-    names = [f["name"] for f in allf]
-    attrs = [f["name"] for f in allf if f["kind"] != "initvar"]
+    names = [f["name"] for f in allf] + (["x", "y"] if c.get("sub") else [])
+    attrs = [f["name"] for f in allf if f["kind"] != "initvar"] + (["x", "y"] if c.get("sub") else [])
     required = [f["name"] for f in allf if f["kind"] == "required"]
     ops = []
     # first op is a construction (required parameters are always given, positionally: they come first)
@@ -98,6 +104,9 @@ def gen_ops(rng, c, params, length):
         r = rng.random()
         if r < 0.1:
             ops.append(new())
+        elif r < 0.17:
+            nargs = rng.randint(len(required), min(len(params), len(required) + 2))
+            ops.append(("reinit", nargs, rng.sample(params[nargs:], rng.randint(0, len(params[nargs:])))))
         elif r < 0.35 and attrs:
             ops.append(("setattr", rng.choice(attrs)))
         elif r < 0.55:
@@ -110,10 +119,16 @@ def gen_ops(rng, c, params, length):
     return ops
 
 
-def ops_coq(ops):
+def ops_coq(ops, sub=False):
     out = []
     for o in ops:
-        if o[0] == "new":
+        if o[0] == "new" and sub:
+            out += ["OAlloc", '(OSetAttr "x")', f"(OInit {coq_nat(o[1])} {coq_list(map(coq_str, o[2]))})", '(OSetAttr "y")']
+        elif o[0] == "reinit" and sub:
+            out += ['(OSetAttr "x")', f"(OInit {coq_nat(o[1])} {coq_list(map(coq_str, o[2]))})", '(OSetAttr "y")']
+        elif o[0] == "reinit":
+            out.append(f"(OInit {coq_nat(o[1])} {coq_list(map(coq_str, o[2]))})")
+        elif o[0] == "new":
             out.append(f"(ONew {coq_nat(o[1])} {coq_list(map(coq_str, o[2]))})")
         elif o[0] == "setattr":
             out.append(f"(OSetAttr {coq_str(o[1])})")
@@ -133,6 +148,8 @@ def run_ops(A, params, ops):
     for o in ops:
         if o[0] == "new":
             obj = A(*([1] * o[1]), **{k: 2 for k in o[2]})
+        elif o[0] == "reinit":
+            obj.__init__(*([1] * o[1]), **{k: 2 for k in o[2]})
         elif o[0] == "setattr":
             setattr(obj, o[1], 9)
         elif o[0] == "set":
@@ -163,9 +180,10 @@ def run(tier):
         except Exception as e:
             R.count("class_rejected:" + type(e).__name__)
             continue
-        A = mod.A
+        A = mod.S if c["sub"] else mod.A
         ccoq, params = cls_coq(c)
         allf = c["base"] + c["own"]
+        sub_fields = ["x", "y"] if c["sub"] else []
         for si in range(nseq):
             ops = gen_ops(rng, c, params, rng.randint(0, 5))
             try:
@@ -173,13 +191,13 @@ def run(tier):
             except Exception as e:
                 R.violation(f"operation sequence raised {type(e).__name__}: {e}", dict(source=src, ops=ops))
                 continue
-            R.note_case((tuple(sorted(f["kind"] for f in allf)), bool(c["base"]), c["base_decorated"], tuple(o[0] for o in ops)),
+            R.note_case((tuple(sorted(f["kind"] for f in allf)), bool(c["base"]), c["base_decorated"], c["sub"], tuple(o[0] for o in ops)),
                         sample=dict(source=src, ops=ops, fields_set=fs))
             R.count("ops:%d" % len(ops))
-            items.append(f"({ccoq}, {ops_coq(ops)}, {coq_list(map(coq_str, fs))})")
+            items.append(f"({ccoq}, {ops_coq(ops, c['sub'])}, {coq_list(map(coq_str, fs))})")
             meta.append((src, ops, fs))
             # serialization: exclude_unset emits exactly the set fields, exclude_unset=False all of them
-            attrs = [f["name"] for f in allf if f["kind"] != "initvar"]
+            attrs = [f["name"] for f in allf if f["kind"] != "initvar"] + sub_fields
             out = serialize(A, obj)
             if sorted(out) != sorted(set(fs) & set(attrs)):
                 R.violation(f"serialize(exclude_unset) emitted {sorted(out)} but fields_set is {fs}", dict(source=src, ops=ops))
@@ -199,9 +217,9 @@ def run(tier):
                 continue
             fs = sorted(fields_set(obj))
             ops = [("new", 0, sub)]
-            R.note_case(("deser", tuple(sorted(f["kind"] for f in allf)), len(sub)), sample=dict(source=src, keys=sub, fields_set=fs))
+            R.note_case(("deser", tuple(sorted(f["kind"] for f in allf)), c["sub"], len(sub)), sample=dict(source=src, keys=sub, fields_set=fs))
             R.count("deserialize")
-            items.append(f"({ccoq}, {ops_coq(ops)}, {coq_list(map(coq_str, fs))})")
+            items.append(f"({ccoq}, {ops_coq(ops, c['sub'])}, {coq_list(map(coq_str, fs))})")
             meta.append((src, ops, fs))
         pyrun.drop_module(mod)
     bad, errs = core.run_coq_shards("C15", HEADER, items, CHECKER, item_type=CASE_TYPE)
@@ -212,8 +230,9 @@ def run(tier):
         R.violation(f"fields_set {fs} differs from the documented set computed by the model", dict(source=src, ops=ops, observed=fs))
     return R.finish(
         rule="with_fields_set dataclasses (0-2 inherited + 1-3 own fields: plain / required / InitVar / init=False / default_as_set, "
-             "decorated or undecorated base, __post_init__ writing a field) x random operation sequences of length <= 6 "
-             "(constructor with positional/keyword args, setattr, set_fields(overwrite), unset_fields, replace) and "
+             "decorated or undecorated base, __post_init__ writing a field, optionally an undecorated subclass overriding __init__ and "
+             "assigning attributes before / after delegating) x random operation sequences of length <= 6 "
+             "(constructor with positional/keyword args, __init__ called again, setattr, set_fields(overwrite), unset_fields, replace) and "
              "deserialize on subsets of keys; fields_set compared with the model, serialize(exclude_unset) with the set")
 
 
